@@ -7,6 +7,11 @@
 package c02
 
 import (
+	"fmt"
+	"math/big"
+
+	"github.com/zclconf/go-cty/cty"
+
 	"verif/harness/core"
 	"verif/harness/gen"
 )
@@ -19,20 +24,25 @@ func (Driver) Info() core.Info {
 	return core.Info{
 		Title: "core operations compute the documented result on known values",
 		Rule: "numeric case = (operation, receiver, argument) with both numbers tagged by class and precision: ALL ordered pairs of the fixed boundary pool " +
-			"(gen.NumberPool; thorough: extended to 400 numbers) x {Add,Subtract,Multiply,Divide,Modulo,Negate,Absolute,LessThan,GreaterThan,LessThanOrEqualTo,GreaterThanOrEqualTo}, " +
-			"plus sampled pairs mixing precisions 32..512 bit, random float64, random big integers, parsed decimals and results of earlier library operations; " +
-			"boolean case = full truth tables; collection case = a list/set/map/tuple/object of size 0..6 built from generated Go slices/maps of wholly known members (nested to depth 2, " +
-			"NFC/NFD twin keys), then every accessor and a probe set of keys in and out of range; plus a fixed wrong-operand-type matrix and a fixed corpus. " +
+			"(gen.NumberPool plus the same fractions at 64/512 bits; thorough: extended to 400 numbers) x {Add,Subtract,Multiply,Divide,Modulo,Negate,Absolute,LessThan,GreaterThan,LessThanOrEqualTo,GreaterThanOrEqualTo}, " +
+			"plus sampled pairs mixing precisions 32..512 bit, random float64, random big integers, parsed decimals, results of earlier library operations and the receiver itself at another precision; " +
+			"boolean case = full truth tables over every way of obtaining a known boolean; collection case = a list/set/map/tuple/object of size 0..6 built from generated Go slices/maps of wholly known members " +
+			"(nested to depth 2, null members, NFC/NFD twin keys), then Length, LengthInt, ElementIterator, AsValueSlice, AsValueMap, AsValueSet and, for a probe set of keys in and out of range " +
+			"(-2..len+2, fractions, 2^32..2^70, infinities, -0, other precisions, NFC/NFD spellings, near misses, wrong-typed keys), HasIndex next to Index / GetAttr / HasElement; " +
+			"plus a fixed wrong-operand-type matrix and a fixed corpus holding the witness of every defect found. " +
 			"distinct = hash of (operation, printable operands incl. precision) resp. (kind, printable members, keys); non-trivial = the result was compared with the reference " +
 			"(numeric: exact arithmetic defines the result; collection: at least one member)",
 		Assumptions: []string{
-			"tolerance for Add/Subtract/Multiply/Divide/Negate/Absolute: relative error <= 2^-(p-2), p = smaller operand precision; exact when the exact result is an integer whose significant bits fit in p",
+			"reference = exact extended rationals (math/big.Rat) for numbers, enumerated truth tables for booleans, the Go slice/map a collection was built from (keys NFC-normalised with x/text) for collections; returned members are compared with the members put in by type, documented equality (mon.ModelEqual) and RawEquals",
+			"tolerance for Add/Subtract/Multiply/Divide/Negate/Absolute: relative error <= 2^-(p-2), p = smaller operand precision; exact when the exact result is an integer whose significant bits fit in p. An integer sum that needs more bits than the operands carry (MaxUint64+2 at 64 bits) may come back rounded: counted as an observation",
+			"Multiply additionally: a product that fits in 512 bits must be exact (its documented precision selection: in-code comments and CHANGELOG 1.7.1)",
 			"numbers are within the documented domain: representable in at most 512 bits of mantissa (no NaN); generated precisions 32..512",
-			"Modulo (finite receiver, finite non-zero divisor): exact when the exact remainder is an integer fitting in p bits; |result| <= |divisor|; otherwise within 2^-(p-2) of the larger operand magnitude (the remainder is computed by cancellation), and a quotient within operand precision of an integer may resolve to either neighbour",
-			"LessThanOrEqualTo/GreaterThanOrEqualTo are documented as LessThan/GreaterThan OR Equals: two numbers that are documented-equal (same shortest decimal text) although exactly different, and that lie within operand precision of each other, count as a tie",
-			"negative zero is treated as zero; the sign of a zero result is not asserted; x/(-0) is recorded in class neg-zero-divisor (F-14), not asserted",
-			"recorded, not asserted (nothing documented or documentation contradicts itself): inf-inf, 0*inf, Modulo with a zero divisor (doc comment says +-Inf, implementation and its test return the receiver), Modulo with an infinite operand, Index/HasIndex on a set, Length of an object",
-			"set members and HasElement candidates use canonical numbers (small ints, 0.5) so that C03's hash defects are not re-reported here; duplicates are not offered to SetVal (documented as undefined)",
+			"Modulo (finite receiver, finite non-zero divisor): exact when the exact remainder is an integer fitting in p bits; |result| <= |divisor|; otherwise within 2^-(p-2) of the larger operand magnitude, and a quotient within operand precision of an integer may resolve to either neighbour",
+			"LessThanOrEqualTo/GreaterThanOrEqualTo are documented as LessThan/GreaterThan OR Equals: two numbers that are documented-equal (same shortest decimal text) although exactly different, and that lie within operand precision of each other, count as a tie; two numbers with exactly the same value must compare <= and >= (class exactly-equal-fractions-at-different-precisions)",
+			"negative zero is exactly zero: x/(-0) must give the infinity with the sign of x as documented for a zero divisor (class neg-zero-divisor, F-14); the sign of a zero RESULT is never asserted",
+			"recorded, not asserted (nothing documented or documentation contradicts itself): inf-inf, 0*inf, Modulo with a zero divisor (doc comment says +-Inf, implementation and its unit test return the receiver), Modulo with an infinite operand, Index/HasIndex on a set (docs/types.md vs the method comment), Length() of an object (method comment promises a panic, code answers the attribute count)",
+			"rejection = any panic; HasIndex is documented never to panic on the key and to answer False for a key of the wrong type",
+			"duplicates (by documented equality) and both spellings of one key are not offered to SetVal/MapVal/ObjectVal (documented as undefined resp. order-dependent); null, unknown or marked operands are outside this property",
 		},
 		MinNontrivial: 5000,
 	}
@@ -71,6 +81,14 @@ func pool(c *core.Ctx) []operand {
 	for _, nc := range p {
 		out = append(out, mkOperand(nc))
 	}
+	// the same fractions at other precisions (gen.NumberPool has this class for integers only)
+	for _, f := range []float64{0.1, 0.12345678905, 3.14159, 1e-7, 0.0005032122135162354} {
+		for _, np := range []uint{64, 512} {
+			out = append(out, mkOperand(gen.NumCase{V: cty.NumberVal(new(big.Float).SetPrec(np).SetFloat64(f)), Class: fmt.Sprintf("float64-value-at-p%d", np)}))
+		}
+	}
+	out = append(out, mkOperand(gen.NumCase{V: cty.NumberFloatVal(0.0005032122135162354), Class: "float64"}))
+	out = append(out, mkOperand(gen.NumCase{V: cty.NumberFloatVal(0.1).Multiply(cty.NumberIntVal(1)), Class: "library-result-Multiply"}))
 	if !c.Quick() {
 		r := c.GlobalRNG("c02-pool")
 		for len(out) < 400 {
